@@ -1,8 +1,194 @@
-(** C08 - syllable segmentation of an input is sound and complete. *)
-From Coq Require Import List Arith.
-From RimeV Require Import Dict.Syll Dict.SyllProofs.
+(** C08 - syllable segmentation of an input is sound and complete.
+
+    Model: Dict/Syll.v ([build_syllable_graph], a statement-by-statement port of
+    Syllabifier::BuildSyllableGraph with corrector_ == nullptr, over the prism
+    as a finite map).  Vocabulary: Dict/SyllSpec.v.  Every theorem is for all
+    prisms satisfying [prism_wf] (stored spellings distinct, none ends with a
+    delimiter, stored types normal/fuzzy/abbreviation), all delimiter sets, both
+    flags and all inputs - no bound.  Property theorems only; each closed by
+    [exact] of a lemma of Dict/SyllProofs.v. *)
+From Coq Require Import List Arith NArith.
+From RimeV Require Import Dict.Syll Dict.SyllSpec Dict.SyllFwdInv Dict.SyllProofs.
 Import ListNotations.
 
-Theorem C08_empty_input : forall P delims c s, build_syllable_graph P delims c s [] = Some empty_graph.
-Proof. exact build_empty_input. Qed.
-Print Assumptions C08_empty_input.
+(** The queue loop terminates within the fuel the model gives it: the model
+    function is total (the out-of-fuel case of [build_with_fuel] is unreachable). *)
+Theorem C08_terminates :
+  forall P delims comp strict inp, prism_wf P delims ->
+  exists g, build_syllable_graph P delims comp strict inp = Some g.
+Proof. exact build_total. Qed.
+Print Assumptions C08_terminates.
+
+(** Edge soundness.  Every edge (s, e, syllable, properties) of the result ends
+    where its properties say, and either spans a substring that, ignoring
+    trailing delimiters, is a stored spelling denoting that syllable - with the
+    edge type the best type of that denotation and a stored credibility - or is
+    the completion edge from the longest tilable prefix to the end of the input. *)
+Theorem C08_edge_sound :
+  forall P delims comp strict inp g far,
+  prism_wf P delims -> build_syllable_graph P delims comp strict inp = Some g ->
+  forward_farthest P delims strict inp = Some far ->
+  forall s e sid pr, edge_at (g_edges g) s e sid pr ->
+    p_end pr = e /\
+    (normal_edge P delims strict inp s e sid pr \/
+     completion_edge P comp inp far (g_interpreted_length g) s e sid pr).
+Proof. exact thm_edge_sound. Qed.
+Print Assumptions C08_edge_sound.
+
+(** Edge exactness ("carries exactly the syllables that spelling denotes").
+    A retained edge inside the tilable prefix carries every syllable its
+    spelling denotes with a type not worse than last_type (= max(type of the
+    farthest vertex, fuzzy)) and not disqualified by strict spelling; together
+    with C08_edge_sound the carried set is exactly that.  In particular every
+    normal and every fuzzy denotation is carried. *)
+Theorem C08_edge_exact :
+  forall P delims comp strict inp g far,
+  prism_wf P delims -> build_syllable_graph P delims comp strict inp = Some g ->
+  forward_farthest P delims strict inp = Some far ->
+  forall s e, s < far -> has_edge (g_edges g) s e ->
+  forall ds d, lookup (strip_delims delims (sub inp s (e - s))) P = Some ds ->
+    In d ds -> adm strict inp s e d = true -> d_type d <= last_type_of g far ->
+    exists pr, edge_at (g_edges g) s e (d_sid d) pr /\ p_type pr <= d_type d.
+Proof. exact thm_edge_exact. Qed.
+Print Assumptions C08_edge_exact.
+
+(** Every retained vertex lies on a path from 0 to the interpreted length,
+    through retained edges and retained vertices. *)
+Theorem C08_vertex_on_path :
+  forall P delims comp strict inp g,
+  prism_wf P delims -> build_syllable_graph P delims comp strict inp = Some g ->
+  forall v t, nm_find v (g_vertices g) = Some t ->
+    gpath g 0 v /\ gpath g v (g_interpreted_length g).
+Proof. exact thm_vertex_on_path. Qed.
+Print Assumptions C08_vertex_on_path.
+
+(** The interpreted length is the longest prefix that can be tiled by spellings
+    ([far] is tilable and no longer prefix is), extended to the whole input
+    only when completion is enabled and the remainder begins a stored spelling. *)
+Theorem C08_interpreted_is_longest_tilable_prefix :
+  forall P delims comp strict inp g,
+  prism_wf P delims -> build_syllable_graph P delims comp strict inp = Some g ->
+  exists far, forward_farthest P delims strict inp = Some far /\
+    tilable P delims strict inp far /\
+    (forall p, tilable P delims strict inp p -> p <= far) /\
+    (g_interpreted_length g = far \/
+     (comp = true /\ far < length inp /\ g_interpreted_length g = length inp /\
+      exists k ds, lookup k P = Some ds /\ is_prefix (skipn far inp) k = true)).
+Proof. exact thm_interpreted_longest. Qed.
+Print Assumptions C08_interpreted_is_longest_tilable_prefix.
+
+(** ... and it is so extended whenever completion is enabled and one of the
+    first 512 spellings (breadth-first) that begin with the remainder denotes a
+    syllable as a normal or fuzzy spelling. *)
+Theorem C08_completion_extends :
+  forall P delims comp strict inp g far l ds d,
+  prism_wf P delims -> build_syllable_graph P delims comp strict inp = Some g ->
+  forward_farthest P delims strict inp = Some far ->
+  comp = true -> far < length inp ->
+  In (l, ds) (expand_search P (skipn far inp) kExpandSearchLimit) -> In d ds -> d_type d < kAbbreviation ->
+  g_interpreted_length g = length inp.
+Proof. exact thm_completion_extends. Qed.
+Print Assumptions C08_completion_extends.
+
+(** Every tiling of the tilable prefix by normal spellings is present as a
+    path: each of its tiles is an edge carrying the chosen syllable with type
+    kNormalSpelling. *)
+Theorem C08_normal_tilings_complete :
+  forall P delims comp strict inp g far l,
+  prism_wf P delims -> build_syllable_graph P delims comp strict inp = Some g ->
+  forward_farthest P delims strict inp = Some far ->
+  tiling P delims strict inp 0 far l -> Forall (fun x => d_type (snd x) = kNormalSpelling) l ->
+  Forall (fun x => exists pr, edge_at (g_edges g) (fst (fst x)) (snd (fst x)) (d_sid (snd x)) pr /\
+                              p_type pr = kNormalSpelling) l.
+Proof. exact thm_normal_tilings. Qed.
+Print Assumptions C08_normal_tilings_complete.
+
+(** [indices] is exactly the transpose of [edges]: for every start and
+    syllable, the list handed to lookups is the properties of that syllable on
+    each edge out of the start, by descending end position ... *)
+Theorem C08_transpose_exact :
+  forall P delims comp strict inp g,
+  prism_wf P delims -> build_syllable_graph P delims comp strict inp = Some g ->
+  forall s sid, index_at (g_indices g) s sid = transposed (g_edges g) s sid.
+Proof. exact thm_transpose_exact. Qed.
+Print Assumptions C08_transpose_exact.
+
+(** ... that is, its members are exactly the edges' properties, and there is no
+    entry for a syllable that no edge carries. *)
+Theorem C08_transpose_members :
+  forall P delims comp strict inp g,
+  prism_wf P delims -> build_syllable_graph P delims comp strict inp = Some g ->
+  forall s sid,
+    match index_at (g_indices g) s sid with
+    | Some l => l <> [] /\ forall pr, In pr l <-> exists e, edge_at (g_edges g) s e sid pr
+    | None => forall e pr, ~ edge_at (g_edges g) s e sid pr
+    end.
+Proof. exact thm_transpose_members. Qed.
+Print Assumptions C08_transpose_members.
+
+(** The maps of the result are in strict key order (std::map iteration order):
+    the lists the model prints are the canonical ones. *)
+Theorem C08_graph_in_key_order :
+  forall P delims comp strict inp g,
+  prism_wf P delims -> build_syllable_graph P delims comp strict inp = Some g -> maps_sorted (g_edges g).
+Proof. exact thm_graph_sorted. Qed.
+Print Assumptions C08_graph_in_key_order.
+
+(** ** Non-vacuity: concrete graphs meeting the hypotheses
+    alphabet a = 1, b = 2, c = 3; delimiter ' = 9;
+    spellings a -> {0}, ab -> {1}, b -> {2, 1 as abbreviation}, ba -> {3}, ca -> {4 as fuzzy}. *)
+
+Theorem C08_example_prism_wf : prism_wf ex_prism [9].
+Proof. exact ex_prism_wf_proof. Qed.
+Print Assumptions C08_example_prism_wf.
+
+(** input ab'a: two tilings (a b' a and ab' a), an ambiguous joint at 1 (the
+    edge b' is penalised once), the abbreviation reading of b pruned, an edge
+    spanning a delimiter. *)
+Theorem C08_example_graph :
+  build_syllable_graph ex_prism [9] false false [1; 2; 9; 1] =
+  Some (mkGraph 4 4 [(0, 0); (1, 4); (3, 0); (4, 0)]
+          [(0, [(1, [(0, mkProps 0 1 (mkCred 0 0 0))]); (3, [(1, mkProps 0 3 (mkCred 0 0 0))])]);
+           (1, [(3, [(2, mkProps 0 3 (mkCred 0 0 1))])]);
+           (3, [(4, [(0, mkProps 0 4 (mkCred 0 0 0))])])]
+          [(0, [(0, [mkProps 0 1 (mkCred 0 0 0)]); (1, [mkProps 0 3 (mkCred 0 0 0)])]);
+           (1, [(2, [mkProps 0 3 (mkCred 0 0 1)])]);
+           (3, [(0, [mkProps 0 4 (mkCred 0 0 0)])])])
+  /\ forward_farthest ex_prism [9] false [1; 2; 9; 1] = Some 4.
+Proof. split; vm_compute; reflexivity. Qed.
+Print Assumptions C08_example_graph.
+
+(** a three-tile normal tiling of that input exists (hypothesis of
+    C08_normal_tilings_complete), one tile spanning the delimiter *)
+Theorem C08_example_tiling :
+  tiling ex_prism [9] false [1; 2; 9; 1] 0 4
+         [(0, 1, mkDesc 0 0 0%N); (1, 3, mkDesc 2 0 0%N); (3, 4, mkDesc 0 0 0%N)]
+  /\ Forall (fun x => d_type (snd x) = kNormalSpelling)
+            [(0, 1, mkDesc 0 0 0%N); (1, 3, mkDesc 2 0 0%N); (3, 4, mkDesc 0 0 0%N)].
+Proof. exact ex_tiling_proof. Qed.
+Print Assumptions C08_example_tiling.
+
+(** input abc with completion: the longest tilable prefix is ab, the remainder
+    c begins the stored spelling ca, so the graph is extended by the completion
+    edge 2 -> 3 carrying syllable 4 (hypotheses of C08_completion_extends). *)
+Theorem C08_example_completion :
+  build_syllable_graph ex_prism [9] true false [1; 2; 3] =
+  Some (mkGraph 3 3 [(0, 0); (1, 4); (2, 0)]
+          [(0, [(1, [(0, mkProps 0 1 (mkCred 0 0 0))]); (2, [(1, mkProps 0 2 (mkCred 0 0 0))])]);
+           (1, [(2, [(2, mkProps 0 2 (mkCred 0 0 1))])]);
+           (2, [(3, [(4, mkProps 3 3 (mkCred 5 1 0))])])]
+          [(0, [(0, [mkProps 0 1 (mkCred 0 0 0)]); (1, [mkProps 0 2 (mkCred 0 0 0)])]);
+           (1, [(2, [mkProps 0 2 (mkCred 0 0 1)])]);
+           (2, [(4, [mkProps 3 3 (mkCred 5 1 0)])])])
+  /\ forward_farthest ex_prism [9] false [1; 2; 3] = Some 2
+  /\ In (2, [mkDesc 4 1 5%N]) (expand_search ex_prism (skipn 2 [1; 2; 3]) kExpandSearchLimit).
+Proof. split; [|split]; vm_compute; auto. Qed.
+Print Assumptions C08_example_completion.
+
+(** strict spelling: the single-spelling input b keeps the normal reading only *)
+Theorem C08_example_strict :
+  build_syllable_graph ex_prism [9] false true [2] =
+  Some (mkGraph 1 1 [(0, 0); (1, 0)] [(0, [(1, [(2, mkProps 0 1 (mkCred 0 0 0))])])]
+          [(0, [(2, [mkProps 0 1 (mkCred 0 0 0)])])]).
+Proof. vm_compute. reflexivity. Qed.
+Print Assumptions C08_example_strict.
